@@ -1227,7 +1227,8 @@ class _Interp:
         if X.NUMPY_OUT_KW in kw:
             for o in kw[X.NUMPY_OUT_KW].origins:
                 self.record(o, "inplace", None, e)
-        if dotted == "numpy.array" and "copy" in kw:
+        copy_kw = next((k.value for k in e.keywords if k.arg == "copy"), None)
+        if dotted == "numpy.array" and "copy" in kw and not (isinstance(copy_kw, ast.Constant) and copy_kw.value is True):
             # np.array(x, copy=False) may alias
             return join(pos[0] if pos else BOTTOM, AV(origins=[("F", self.site(e, "array"))]))
         kind = X.classify_function(dotted)
